@@ -668,4 +668,59 @@ theorem setReg_self (s : St) (c p : Nat) (hc : s.reg c = some p) : ({ s with h :
   cases s with
   | mk h regs => simp only [St.setReg, St.reg] at hc ⊢; rw [set_self regs c p hc]
 
+/-! ## abstract view of a cursor at position `pre.length` -/
+
+theorem abs_split (h : Heap) (pre : List Nat) (p : Nat) (post : List Nat) :
+    abs h (pre ++ p :: post) = (pre ++ [p]).tail.map h.val ++ post.map h.val ∧
+    ((pre ++ [p]).tail.map h.val).length = pre.length := by
+  constructor
+  · have : pre ++ p :: post = (pre ++ [p]) ++ post := by simp
+    rw [abs, this, List.tail_append_of_ne_nil (by simp), List.map_append]
+  · simp
+
+theorem take_drop_split (h : Heap) (pre : List Nat) (p : Nat) (post : List Nat) :
+    (abs h (pre ++ p :: post)).take pre.length = (pre ++ [p]).tail.map h.val ∧
+    (abs h (pre ++ p :: post)).drop pre.length = post.map h.val := by
+  obtain ⟨e, l⟩ := abs_split h pre p post
+  rw [e]
+  constructor
+  · rw [List.take_append_of_le_length (by omega), List.take_of_length_le (by omega)]
+  · rw [List.drop_append_of_le_length (by omega), List.drop_of_length_le (by omega)]; simp
+
+/-- `Set` on an element: only that value changes -/
+theorem set_mid_wf (h : Heap) (pre : List Nat) (p t : Nat) (post : List Nat) (v : Int)
+    (hw : WF h (pre ++ p :: t :: post)) :
+    Mlink.set h p v = .ok (h.setVal t v) ∧ WF (h.setVal t v) (pre ++ p :: t :: post) ∧
+      abs (h.setVal t v) (pre ++ p :: t :: post) = (abs h (pre ++ p :: t :: post)).set pre.length v := by
+  have hv := cell_valid h pre p (t :: post) hw.seg hw.nodup
+  have hl := cell_link h pre p (t :: post) none hw.seg
+  have ht : t < h.vals.length := by rw [hw.vlen]; exact hw.bound t (by simp)
+  refine ⟨by simp [Mlink.set, atEnd_cell h pre p (t :: post) hw.seg hw.nodup, hv, tgt, hl], ?_, ?_⟩
+  · exact ⟨hw.head, (segL_congr h (h.setVal t v) _ _ (fun _ _ => rfl)).mpr hw.seg, hw.nodup, hw.bound,
+      by simpa [Heap.setVal] using hw.vlen, hw.len, hw.off⟩
+  · obtain ⟨e1, l1⟩ := abs_split h pre p (t :: post)
+    obtain ⟨e2, _⟩ := abs_split (h.setVal t v) pre p (t :: post)
+    have hnd := hw.nodup
+    have hnd' : ((pre ++ [p]) ++ t :: post).Nodup := by simpa using hnd
+    rw [List.nodup_append] at hnd'
+    obtain ⟨_, hn2, hn3⟩ := hnd'
+    rw [List.nodup_cons] at hn2
+    rw [e1, e2, List.set_append_right _ _ (by omega), l1, Nat.sub_self]
+    simp only [List.map_cons, List.set_cons_zero, val_setVal, ht, and_true, if_true]
+    congr 1
+    · apply List.map_congr_left
+      intro j hj
+      have : j ≠ t := fun e => hn3 j (List.mem_of_mem_tail hj) t (by simp) e
+      rw [val_setVal]; simp [this]
+    · congr 1
+      apply List.map_congr_left
+      intro j hj
+      have : j ≠ t := fun e => hn2.1 (e ▸ hj)
+      rw [val_setVal]; simp [this]
+
+theorem getD_append_at {α : Type} (l1 l2 : List α) (n : Nat) (d : α) (hl : l1.length = n) :
+    (l1 ++ l2).getD n d = l2.getD 0 d := by
+  simp only [List.getD_eq_getElem?_getD]
+  rw [List.getElem?_append_right (by omega), hl, Nat.sub_self]
+
 end MdsVerif.Proofs.Mlink
